@@ -42,6 +42,18 @@ def pair_program(a):
     return '\n'.join(L)
 
 
+SPECIALS = [0x5c, 0x22, 0x27, 0x0a, 0x0d, 0x00, 0xff, 0x41, 0x3b, 0x20, 0x7f, 0x80, 0x09, 0x78, 0x30, 0x7b]
+
+
+def triple_program(a, b):
+    L = ['empty @is_you() {']
+    for c in range(256):
+        L.append(f'write("{esc(a)}{esc(b)}{esc(c)}"); write("{esc(c)}{esc(a)}{esc(b)}".length);')
+    L.append('writeln();')
+    L.append('const byte[] t = [' + ', '.join("'" + esc(x) + "'" for c in range(0, 256, 5) for x in (a, b, c)) + ']; write(t); writeln(t.length); }')
+    return '\n'.join(L)
+
+
 def viaregs_program(bs):
     """The string reaches the byte-array view / write through a variable, a parameter, a call result and an array element."""
     body = ''.join(esc(b) for b in bs)
@@ -162,6 +174,12 @@ def items(tier):
     for a in firsts:
         out.append((i, 'pair', a))
         i += 1
+    if tier == 'thorough':
+        # triples: two special bytes followed by every byte, as a string and as a constant byte array
+        for a in SPECIALS:
+            for b in SPECIALS:
+                out.append((i, 'triple', a, b))
+                i += 1
     for lo in range(0, 65, 13):
         out.append((i, 'len', lo))
         i += 1
@@ -207,6 +225,10 @@ def run_item(item, tier):
         run_program(st, pair_program(a), [[]], Ws[:1], f'pairs with first byte {a:#x}')
         st.add('cases', 256)
         st.sample({'pair_first_byte': a, 'second_bytes': 'all 256'})
+    elif kind == 'triple':
+        a, b = item[2], item[3]
+        run_program(st, triple_program(a, b), [[]], Ws[:1], f'triples starting {a:#x} {b:#x}')
+        st.add('cases', 256)
     elif kind == 'len':
         run_program(st, length_program(item[2], min(65, item[2] + 13)), [[]], Ws, f'string lengths {item[2]}..')
         st.add('cases', 13)
@@ -244,6 +266,7 @@ def coverage(total, tier):
                   'const byte[] argument, is bool, byte array literal, string variable, string element)',
         'raw': 'every printable ASCII character written literally in strings and character literals',
         'pairs': ('all 65536 ordered byte pairs' if tier == 'thorough' else 'ordered pairs with first byte in {\\\\, ", \', LF, CR, NUL, 0xff, A, ;, space, DEL, 0x80} x all 256') + ' (+ a 3-byte string indexed in the middle)',
+        'triples': ('16 x 16 special leading byte pairs x all 256 third bytes, as strings and inside a constant byte array' if tier == 'thorough' else 'thorough tier only'),
         'lengths': 'strings of every length 0..64 (written, length, truthiness, last and middle index)',
         'file': 'a source file with raw control / non-ASCII characters (TAB, BS, VT, FF, ESC, DEL, NBSP, e-acute, U+2028, tab runs) inside string and character literals, compiled by `python -m hidc`',
         'viaregs': 'string -> const byte[] views and writes where the string comes from a local, a global, a call result, a const and a mutable string array element (5 byte patterns)',
